@@ -172,6 +172,22 @@ CLAIMED.update({
              ref='DESIGN.md section 4 C20'),
 })
 ALL = ['C%02d' % i for i in range(1, 21)]
+EX_NOTE = ('Trusts Coq kernel + vm_compute; the HAND-WRITTEN models coq/ExCan.v / coq/ExListeners.v of the example sources (statement by statement over the '
+           'accessor models regenerated from the library), tied on every run by executing the unmodified example .c files (#included by tools/harness_ex, '
+           'recv/write/printf/poll redirected by macros) under ASan/UBSan with pattern-initialised locals on thousands of structured and malformed datagrams and '
+           'comparing frames written / text printed / state digests with the extracted model; real sockets, timerfd, clock values, malloc failure and libc internals '
+           'are not modelled. Print Assumptions: closed under the global context.')
+CLAIMED.update({
+ 'C18': dict(text='Theorems C18_can / C18_hello / C18_vss / C18_aaf / C18_cvf / C18_crf: for the modelled receive path of each of the six example listeners, in '
+                  'each mode (UDP/raw, TSCF/NTSCF, classic/FD, CRF listener/talker, any max transit time), both byte orders, EVERY datagram of any length and '
+                  'content and every SEQUENCE of datagrams from every reachable listener state (receive buffer with arbitrary stale content, queues, counters): '
+                  'each datagram ends as handled or dropped - never an access outside the receive buffer / CAN frame / queue entry / decoder destination, never the '
+                  'fuel-exhaustion outcome (loops end: the ACF walk advances >= 16 bytes per message, the media clock search ends within |queue| + 34360 steps '
+                  'for every timestamp, C18_crf_search_ends), and the state invariant is kept so the next datagram is processed. Partial: the model stands for the code via the '
+                  'correspondence run only; libc/kernel behaviour is outside.',
+             note=EX_NOTE, technique='Coq proof (invariants + induction over datagram sequences and loop fuel) over a hand-written model; sanitizer-run differential tie and search',
+             ref='DESIGN.md section 4 C18'),
+})
 def main():
     checks = []
     for pid in ALL:
